@@ -641,6 +641,11 @@ impl<P: RuntimeProvider + Send + Sync> SqliteZoneHandler<P> {
         //                     return (FORMERR)
         //           else
         //                return (FORMERR)
+
+        // the obsolete QUERY metatypes of RFC 1035 3.2.3, which have no RecordType variant
+        const MAILB: RecordType = RecordType::Unknown(253);
+        const MAILA: RecordType = RecordType::Unknown(254);
+
         for rr in records {
             if !self.origin().zone_of(&(&rr.name).into()) {
                 return Err(ResponseCode::NotZone);
@@ -649,7 +654,7 @@ impl<P: RuntimeProvider + Send + Sync> SqliteZoneHandler<P> {
             let class: DNSClass = rr.dns_class;
             if class == self.in_memory.class() {
                 match rr.record_type() {
-                    RecordType::ANY | RecordType::AXFR | RecordType::IXFR => {
+                    RecordType::ANY | RecordType::AXFR | RecordType::IXFR | MAILA | MAILB => {
                         return Err(ResponseCode::FormErr);
                     }
                     _ => (),
@@ -667,7 +672,7 @@ impl<P: RuntimeProvider + Send + Sync> SqliteZoneHandler<P> {
                         }
 
                         match rr.record_type() {
-                            RecordType::AXFR | RecordType::IXFR => {
+                            RecordType::AXFR | RecordType::IXFR | MAILA | MAILB => {
                                 return Err(ResponseCode::FormErr);
                             }
                             _ => (),
@@ -678,7 +683,11 @@ impl<P: RuntimeProvider + Send + Sync> SqliteZoneHandler<P> {
                             return Err(ResponseCode::FormErr);
                         }
                         match rr.record_type() {
-                            RecordType::ANY | RecordType::AXFR | RecordType::IXFR => {
+                            RecordType::ANY
+                            | RecordType::AXFR
+                            | RecordType::IXFR
+                            | MAILA
+                            | MAILB => {
                                 return Err(ResponseCode::FormErr);
                             }
                             _ => (),
